@@ -151,3 +151,50 @@ prop("C18", [_lazy("converters", "rule_tok1"), _lazy("converters", "rule_tok2"),
      "value is returned before any container branch can iterate it (NULL-1); the converter runtime keeps no state "
      "shared between classes (GLOB-1).",
      "that converted values equal parsing the original strings; behaviour of the per-field attrs converter form")
+
+prop("C10", [_lazy("emit", "rule_lim"), _lazy("emit", "rule_inj3"), _lazy("emit", "rule_lit"), _lazy("state", "rule_glob1")],
+     "Static decision of: every comparison of a literal count with MAX_LITERALS, of a member length with "
+     "MAX_STRING_LENGTH and of the member count with the configured maximum flips exactly at the documented "
+     "boundary (evaluated at limit-1, limit, limit+1 after normalisation) and compares the size of ONE collection; "
+     "'no limit' is an `is None` test so 0 means zero (LIM-1..3); Literal members are rendered in code context by "
+     "an escaper that is exact for every str - repr or json.dumps(ensure_ascii=False) - with nothing but the join "
+     "after it (INJ-3); Literal is produced only on paths where the style enables literals, attrs disables them, "
+     "the limit is stored per generator instance as int (LIT-1/2) in a style table that is not shared (GLOB-1).",
+     "'annotated whenever nothing was generalised' and that the listed strings are precisely the observed ones "
+     "(values at run time)")
+
+prop("C11", [_lazy("emit", "rule_inj2"), _lazy("emit", "rule_sib2"), _lazy("emit", "rule_label1"),
+             _lazy("imports", "rule_shadow1"), _lazy("emit", "rule_dup1"), _lazy("state", "rule_cache2")],
+     "Static decision of: every use of the original key in the field_data family is a comparison, a label "
+     "conversion, a container display (rendered by repr) or an exact escaper in code context (INJ-2); on every "
+     "feasible path of each generator the original key is attached and rendered whenever the name differs (and "
+     "metadata is on) (SIB-2); prepare_label strips non-word characters, rewrites a leading digit, converts case "
+     "and tests the exact label against the black-list last (LABEL-1); every name a generated module can import "
+     "is black-listed (SHADOW-1); any model whose name is taken is renamed, unconditionally (DUP-1); the label "
+     "cache cannot serve one conversion's result for the other (CACHE-2).",
+     "distinct keys -> distinct names (collision behaviour of unidecode / re.sub / inflection on concrete strings); "
+     "de-duplication of class names happens before sanitising (two raw names can sanitise to one)")
+
+prop("C03", [_lazy("imports", "rule_imp1"), _lazy("imports", "rule_imp2"), _lazy("imports", "rule_shadow1"),
+             _lazy("emit", "rule_label1"), _lazy("emit", "rule_dup1"), _lazy("emit", "rule_fwd1"),
+             _lazy("emit", "rule_inj2"), _lazy("emit", "rule_inj3"), _lazy("emit", "rule_sib1")],
+     "Static decision of: every import tuple a generator can emit (symbolic components expanded over the class "
+     "tables) names an existing module and a name bound at its top level, read from the installed sources "
+     "(IMP-1); every identifier in an emitted code fragment (templates, default/factory/converter strings, bases) "
+     "is a builtin or imported by the same generator, attribute chains resolve (IMP-2/3); importable names are "
+     "black-listed as labels (SHADOW-1); label typestate (LABEL-1); taken names are renamed (DUP-1); model "
+     "references are quoted dotted names (FWD-1); keys and literal members cannot break the source text "
+     "(INJ-2/3); a field has a default iff optional, so required fields precede defaults (SIB-1).",
+     "that the module compiles and every annotation evaluates for each concrete input; uniqueness of sanitised "
+     "names within a scope; behaviour of inflection/unidecode; names that shadow pydantic BaseModel attributes")
+
+prop("C04", [_lazy("emit", "rule_sib1"), _lazy("emit", "rule_sib2"), _lazy("emit", "rule_inj2"), _lazy("emit", "rule_tbl1"),
+             _lazy("state", "rule_cache2"), _lazy("state", "rule_glob1")],
+     "Static decision of: on every feasible path of each framework's field_data (path enumeration with a small "
+     "abstract state for the kwargs dict) an optional list/dict/scalar field carries default list/dict/None to "
+     "the emitted body and a required field carries none; the optional flag is the sort_fields group, decided by "
+     "isinstance(DOptional) before any other criterion (SIB-1); the original key is attached and rendered "
+     "whenever the name differs (SIB-2) and escaped exactly (INJ-2); IR wrappers render as their typing "
+     "counterparts (TBL-1); field labels cannot come from the class-name conversion (CACHE-2); style tables are "
+     "per instance (GLOB-1).",
+     "per-program equality between evaluated annotation and IR type; Jinja whitespace; nested-class indentation")
